@@ -62,7 +62,7 @@ def decode(family, sel):
     raise IndexError(sel)
 
 
-def _body(family, sel, bfs, lcs, meta):
+def _body(family, sel, bfs, lcs, meta, force_concrete=False):
     k, shape, mv, pv, smask = decode(family, sel)
     mult = {}
     for i in range(1, k):
@@ -88,6 +88,8 @@ def _body(family, sel, bfs, lcs, meta):
         # a non-topological order of the mapping makes flatten() substitute a particle in several passes: the bf then contains
         # x**a * x**b where the oracle has x**(a+b), and z3 does not normalise powers (measured: 4 s per query, paths time out)
         keep = set()
+    if force_concrete:
+        keep = set(range(k))
     bfs = [b if i in keep else PRIMES[i] for i, b in enumerate(bfs)]
     given = {}
     for i in range(k):
@@ -129,11 +131,16 @@ def _body(family, sel, bfs, lcs, meta):
     for name, cnt in exp_fs.items():
         if got_fs[name] != cnt:
             return fail(f"multiplicity of {name}: {got_fs[name]} expected {cnt} (shape {shape}, mult {mult}, stable {stable}, order {order})")
-    if top.bf != exp_bf:
+    if force_concrete:
+        import math
+        bad = not math.isclose(top.bf, exp_bf, rel_tol=1e-12, abs_tol=0.0)
+    else:
+        bad = top.bf != exp_bf
+    if bad:
         return fail(f"bf {top.bf} expected product {exp_bf} (shape {shape}, mult {mult}, occ {occ}, stable {stable}, order {order})")
     if top.metadata != {"model": "PHSP", "model_params": [meta, "x"], "study": meta}:
         return fail(f"top-level model information not kept: {top.metadata}")
-    if not stable and chain.visible_bf != exp_bf:
+    if not stable and not force_concrete and chain.visible_bf != exp_bf:
         return fail("visible_bf is not the product")
     # the original chain is unchanged
     if list(chain.decays) != [NAMES[i] for i in order]:
@@ -156,3 +163,23 @@ def body_thorough(sel: int, b0: int, b1: int, b2: int, b3: int, b4: int, b5: int
 
 
 N_QUICK, N_THOROUGH = n_sel(FAM_QUICK), n_sel(FAM_THOROUGH)
+
+
+# ---- floats: products of small dyadic branching fractions are exact in binary floating point ---------------------------------
+DYADIC = [3 * 2.0 ** -14, 5 * 2.0 ** -16, 7 * 2.0 ** -18, 11 * 2.0 ** -15, 13 * 2.0 ** -17, 3 * 2.0 ** -19]
+
+
+def body_small(sel: int) -> bool:
+    """the same family with small floating-point branching fractions (3*2^-14 ...): the visible bf is the exact product
+    (values down to 1e-30 and below - no rounding, clipping or quantisation)"""
+    k, shape, mv, pv, smask = decode(FAM_QUICK, sel)
+    # exponents stay small enough for the product of the dyadic numbers to be exactly representable (53-bit mantissa)
+    from fractions import Fraction
+    global PRIMES
+    saved = PRIMES
+    PRIMES = DYADIC
+    try:
+        ok = _body(FAM_QUICK, sel, list(DYADIC), [1, 2, 1, 3, 1, 2], 7, force_concrete=True)
+    finally:
+        PRIMES = saved
+    return ok
